@@ -19,22 +19,49 @@ func init() {
 
 func r01_1(c *Ctx, r *Report) {
 	const rule = "R01.1"
-	r.rule(rule, "Lunar stepping delegates. (*Lunar).Next(n) returns the civil->lunar conversion of the civil day step of the object's own solar date: lunar.solar.NextDay(n).GetLunar(), with n passed unchanged. A native re-implementation is reported as undecided.")
+	r.rule(rule, "Lunar stepping delegates. (*Lunar).Next(n) returns the civil->lunar conversion of the civil day step of the object's own solar date: the lunar conversion (NewLunarFromSolar, directly or through GetLunar) of NextDay(n) of the object's own solar date, with n passed unchanged; accessors and delegations are read inline. A native re-implementation is reported as undecided.")
 	fn := c.Fn(r, rule, "calendar.(*Lunar).Next")
 	if fn == nil {
 		return
 	}
-	s := ""
-	for _, b := range fn.Blocks {
-		for _, ins := range b.Instrs {
-			if ret, ok := ins.(*ssa.Return); ok && len(ret.Results) == 1 {
-				s = symExpr(c, ret.Results[0], nil, map[ssa.Value]string{}, 0)
+	construct := "calendar.(*Lunar).Next is solar.NextDay(n).GetLunar()"
+	if len(fn.Params) != 2 {
+		r.bad(rule, construct, c.fnPos(fn), "unexpected signature (undecided = fail)")
+		return
+	}
+	var leaf leafX
+	leaf = func(fr *evalFrame, v ssa.Value) (interface{}, bool) {
+		if rc, f, ok := getterField(c, v); ok && f == "Lunar.solar" {
+			if ofr, o := fr.origin(rc); ofr.parent == nil && o == ssa.Value(fn.Params[0]) {
+				return absPtr{"own", false}, true
 			}
 		}
+		call, ok := v.(*ssa.Call)
+		if !ok || call.Common().StaticCallee() == nil {
+			return nil, false
+		}
+		switch fname(call.Common().StaticCallee()) {
+		case "calendar.(*Solar).NextDay":
+			x, ok := evalWith(fr, call.Common().Args[0], leaf)
+			ofr, n := fr.origin(call.Common().Args[1])
+			if ptr, isP := x.(absPtr); ok && isP && ptr.tag == "own" && ofr.parent == nil && n == ssa.Value(fn.Params[1]) {
+				return absPtr{"own+n", false}, true
+			}
+		case "calendar.NewLunarFromSolar":
+			x, ok := evalWith(fr, call.Common().Args[0], leaf)
+			if ptr, isP := x.(absPtr); ok && isP {
+				return absPtr{"lunar(" + ptr.tag + ")", false}, true
+			}
+		}
+		return nil, false
 	}
-	ok1 := s == "calendar.(*Solar).GetLunar(calendar.(*Solar).NextDay(lunar.solar,days))"
-	ok2 := s == "calendar.(*Solar).GetLunar(calendar.(*Solar).Next(lunar.solar,days,false))"
-	r.check((ok1 || ok2) && len(fn.Blocks) == 1, rule, "calendar.(*Lunar).Next is solar.NextDay(n).GetLunar()", c.fnPos(fn), "returned expression: "+s)
+	ev := &evaluator{inline: inlineLibrary, leaf: leaf}
+	res, outcome := ev.run(fn, nil, nil, nil, nil)
+	got := outcome + " " + ev.fail
+	if outcome == "return" && len(res) == 1 {
+		got = fmt.Sprint(res[0])
+	}
+	r.check(outcome == "return" && len(res) == 1 && res[0] == interface{}(absPtr{"lunar(own+n)", false}), rule, construct, c.fnPos(fn), "the evaluator (accessors and delegations inline) reads the result as: "+got)
 }
 
 // lunarFieldWrites: the Lunar fields a constructor definitely writes (through compute*).
@@ -166,6 +193,10 @@ func anchoredOnCivilYear(c *Ctx, r *Report, rule string) {
 				return "", false
 			}
 			return symExpr(c, call.Common().Args[0], nil, map[ssa.Value]string{}, 0), true
+		}
+		if len(computeCall.Common().Args) < 2 {
+			r.bad(rule, construct, c.pos(computeCall.Pos()), "compute() is not handed the year table it builds the term table from: the table then comes from shared state, where nothing ties it to the civil year of the stored solar date")
+			continue
 		}
 		y := computeCall.Common().Args[1]
 		var problems []string
